@@ -414,6 +414,13 @@ ADDR_ARG = OneOf(Bytes(0, 6), ByteArray(0, 6))
 
 
 USED_BY_NETWORK = ("open_rx_pipe", "open_tx_pipe", "auto_ack.set", "set_auto_retries")
+# the setters that establish the modes C02 quantifies over (auto-ack / ask_no_ack / ACK payloads / retries): send()'s
+# contract reads those modes from the REGISTERS, so a setter that programs another mode than the one asked for
+# (seed s61: `ack = True` cleared EN_DYN_ACK, so ask_no_ack sends waited for an ACK) breaks C02 through them
+# "the same payload-length mode" is C01's premise: the calls that establish it per pipe belong to C01's check as well
+# (seed s71: set_payload_length(x, 0) treated pipe 0 as "all pipes" -> a peer's frames to pipe N no longer fit)
+PAYLOAD_MODE = ("payload_length.set", "set_payload_length", "dynamic_payloads.set", "set_dynamic_payloads")
+MODES_OF_SEND = ("ack.set", "allow_ask_no_ack.set", "auto_ack.set", "set_auto_ack", "arc.set", "ard.set", "set_auto_retries")
 
 
 def C(name, target, args, ref, extra_policy=None, ensures=(), **kw):
@@ -426,6 +433,10 @@ def C(name, target, args, ref, extra_policy=None, ensures=(), **kw):
     if name in USED_BY_NETWORK:
         # callees that the network layer uses BY REFERENCE: their obligations belong to those properties' checks too
         props = props + ["C04", "C07", "C05", "C14"]
+    if name in MODES_OF_SEND:
+        props = props + ["C02"]
+    if name in PAYLOAD_MODE:
+        props = props + ["C01"]
     return Contract("C03." + name, target, state, requires=["spec.rf24_state:inv"], refines=ref,
                     view="spec.rf24_state:view_cfg", ensures=ens, policy=pol, props=props, **kw)
 
